@@ -25,7 +25,7 @@ ASSUMPTIONS = ['HEADER_TABLE_SIZE stays 4096: the server sets the same non-defau
                'bytes in the continuation: the Settings(initial_values=...) idiom leaves derived limits of the '
                'client stale until its SETTINGS frame is acknowledged, which is not what the property is about']
 TIERS = {'quick': {'cases': 3000, 'size': 700},
-         'thorough': {'cases': 100000, 'size': 1500}}
+         'thorough': {'cases': 300000, 'size': 1500}}
 VALUES = {1: [4096], 2: [0, 1], 3: [0, 1, 100, 2 ** 32 - 1], 4: [0, 1, 65535, 65536, 2 ** 20],
           5: [16384, 16385, 65536, 2 ** 24 - 1], 6: [8192, 65536, 2 ** 32 - 1], 8: [0, 1],
           # extension settings h2 has no name for are handed over like the others (RFC 7540 s6.5.2: unknown
